@@ -10,6 +10,12 @@ def windowIdx (es ns : List Rat) (cx cy half : Rat) : List Nat :=
   (List.range es.length).filter fun i =>
     decide (ratAbs (es.getD i 0 - cx) ≤ half) && decide (ratAbs (ns.getD i 0 - cy) ≤ half)
 
+/-- Indices of the points inside the closed DISC of radius `r` around `(cx, cy)` (`query_ball_point` with the Euclidean norm — not what the
+    window functions ask for; present so that a changed norm in the source translates to something). -/
+def discIdx (es ns : List Rat) (cx cy r : Rat) : List Nat :=
+  (List.range es.length).filter fun i =>
+    decide (0 ≤ r) && decide ((es.getD i 0 - cx) * (es.getD i 0 - cx) + (ns.getD i 0 - cy) * (ns.getD i 0 - cy) ≤ r * r)
+
 /-- `numpy.unravel_index` for a 2-D (or 1-D) shape given its number of columns. -/
 def unravel (ncols : Nat) (k : Nat) : Nat × Nat := (k / ncols, k % ncols)
 
